@@ -1124,3 +1124,36 @@ Proof.
     + apply inv_init; assumption.
     + intros ax i _. reflexivity.
 Qed.
+
+(* ================================================================ coherence is preserved (used by C05) *)
+(* no hypothesis on the modes or on the metadata functions: a refusal returns no table *)
+Lemma fast_merge_wf ts : Forall wf ts -> wf (fast_merge ts).
+Proof. intros W. destruct (fast_merge_spec_proof ts W) as (Wr & _). exact Wr. Qed.
+
+Lemma merge_general_wf a b sm om fs fo r :
+  wf a -> wf b -> merge_general a b sm om fs fo = ROk r -> wf r.
+Proof.
+  intros Wa Wb H. destruct (merge_general_spec_proof _ _ _ _ _ _ _ Wa Wb H) as (_ & _ & _ & _ & _ & W). exact W.
+Qed.
+
+Lemma merge_pair_wf sm om fs fo a b r : wf a -> wf b -> merge_pair sm om fs fo a b = ROk r -> wf r.
+Proof. intros Wa Wb H. destruct (merge_pair_spec _ _ _ _ _ _ _ Wa Wb H) as (W & _). exact W. Qed.
+
+Lemma fold_pair_wf sm om fs fo others : forall m r,
+  wf m -> Forall wf others -> fold_left (pair_step sm om fs fo) others (ROk m) = ROk r -> wf r.
+Proof.
+  induction others as [|o others IH]; intros m r Wm W H.
+  - inversion H; subst. exact Wm.
+  - inversion W as [|? ? Wo Wr]; subst. cbn [fold_left pair_step] in H.
+    destruct (merge_pair sm om fs fo m o) as [m'|c] eqn:E.
+    + apply (IH m' r); [eapply merge_pair_wf; eassumption|exact Wr|exact H].
+    + rewrite fold_err in H. discriminate.
+Qed.
+
+Lemma merge_dispatch_wf self others sm om fs fo r :
+  wf self -> Forall wf others -> merge_dispatch self others sm om fs fo = ROk r -> wf r.
+Proof.
+  intros Ws Wo H. destruct (fast_ok (self :: others) sm om fs fo) eqn:F.
+  - unfold merge_dispatch in H. rewrite F in H. inversion H; subst. apply fast_merge_wf. constructor; assumption.
+  - rewrite (dispatch_unfold _ _ _ _ _ _ F) in H. eapply fold_pair_wf; eassumption.
+Qed.
